@@ -164,6 +164,7 @@ package goat
 // reader closure of a server stream: only this stream's queue, or the stream context's error
 //@ func goat.(*handler).runStream$1
 //@   nopanic[C12.nopanic]
+//@   dead_returns 1 -- the stream queue is never closed: the !ok branch of the receive is defensive code
 //@   ctxaware[C07.handler_receive_wakes_on_stream_ctx C14.handler_receive_wakes_on_stream_ctx C10.handler_receive_wakes_on_stream_ctx] ctx
 //@   requires ctx != nil
 //@   captures[C05.own_queue] handler.ch != nil && isclass(handler.ch, "goat.streams.ch")
